@@ -991,11 +991,19 @@ class _Run:
             return "unwrap"
         if nm in TRANSPARENT:
             return "id"
+        # a variant constructor used as a function (`.map_or_else(|| Ok(..), Err)`, `.map(Some)`)
+        key_ = str(payload(clo)[1]) if len(payload(clo)) > 1 else ""
+        for full, short in (("result::Result::Err", "Err"), ("result::Result::Ok", "Ok"), ("option::Option::Some", "Some")):
+            if nm.endswith(full) or (full + "::{constructor") in key_:
+                return "ctor:" + short
         return None
 
     def call_closure(self, st, clo, argvals, bb, t):
         """one call of a closure value with the given arguments, recorded as an event of this body"""
         lc = self.lib_callable(clo)
+        if lc is not None and lc.startswith("ctor:") and len(argvals) == 1:
+            adt_ = "std::option::Option" if lc == "ctor:Some" else "std::result::Result"
+            return sym.agg(adt_, lc[5:], ["0"], [argvals[0]])
         if lc is not None and len(argvals) == 1:
             return sym.unwrap(argvals[0]) if lc == "unwrap" else argvals[0]
         ctarget = self.closure_target(clo)
